@@ -8,6 +8,24 @@ HASHLIB_ALGOS = [
 DATAONE = {"MD5": "md5", "SHA-1": "sha1", "SHA-256": "sha256", "SHA-384": "sha384", "SHA-512": "sha512"}
 
 
+def spec_bytes(spec) -> bytes:
+    if "hex" in spec:
+        return bytes.fromhex(spec["hex"])
+    pat = bytes.fromhex(spec["pattern"])
+    n = spec["len"]
+    return (pat * (n // len(pat) + 1))[:n] if pat else b""
+
+
+def bytes_spec(data: bytes):
+    if len(data) <= 64:
+        return {"hex": data.hex()}
+    for plen in (1, 2, 3, 4, 7, 8, 16):
+        pat = data[:plen]
+        if (pat * (len(data) // plen + 1))[: len(data)] == data:
+            return {"pattern": pat.hex(), "len": len(data)}
+    return {"hex": data.hex()}
+
+
 class Contents:
     """token <-> bytes registry"""
 
@@ -22,6 +40,19 @@ class Contents:
         self.by_tok[tok] = data
         self.by_bytes[data] = tok
         return tok
+
+    def to_json(self):
+        return {str(t): bytes_spec(b) for t, b in self.by_tok.items()}
+
+    @staticmethod
+    def from_json(js):
+        c = Contents()
+        for t in sorted(js, key=int):
+            b = spec_bytes(js[t])
+            assert int(t) == len(c.by_tok) + 1, "tokens must be dense"
+            c.by_tok[int(t)] = b
+            c.by_bytes.setdefault(b, int(t))
+        return c
 
     def tok_of(self, data: bytes) -> str:
         t = self.by_bytes.get(data)
